@@ -540,6 +540,11 @@ func (p *credProp) sequential(rc *RunCtx, sc *Scenario, cp *CredParams, info *Ru
 		resk, _, _, _, path := run(dir, k)
 		evals++
 		info.Faults["crash"]++
+		for k2, c2 := range simos.Snapshot().Fired {
+			if strings.HasPrefix(k2, "crash-before-") {
+				info.Probes[k2] += c2
+			}
+		}
 		if v != nil {
 			return v
 		}
